@@ -21,11 +21,18 @@ def gen(chk, mdl):
     for h in fam:
         for pth in ("/app/index.html", "/app/login", ""):
             srcs.append(h + pth); bases.append(h + pth)
+    # a colon in the first segment of what is left of the source path: every kind of character in front of it
+    for sg in uris.COLON_SEGS:
+        for pre, b in (("s://h/a/", "s://h/a/b"), ("s://h/", "s://h/x"), ("s:/a/", "s:/a/b"), ("s://h/a/", "s://h/a/"), ("s://h/a/b/", "s://h/a/c/d")):
+            srcs += [pre + sg, pre + sg + "/t", pre + sg + "?q"]; bases.append(b)
     # dot segments in source and base (the property quantifies over all absolute URIs, not only normalised ones)
     dotted = uris.valid_texts(mdl, uris.small_texts(3, alphabet=["a", ".", "..", "b"], auths=("//h",), schemes=("s",), queries=(None,)))
     srcs += dotted; bases += dotted
     global FAMILY
     FAMILY = set(h + pth for h in fam for pth in ("/app/index.html", "/app/login", ""))
+    for sg in uris.COLON_SEGS:
+        for pre, b in (("s://h/a/", "s://h/a/b"), ("s://h/", "s://h/x"), ("s:/a/", "s:/a/b"), ("s://h/a/", "s://h/a/"), ("s://h/a/b/", "s://h/a/c/d")):
+            FAMILY |= {pre + sg, pre + sg + "/t", pre + sg + "?q", b}
     return sorted(set(srcs)), sorted(set(bases))
 
 def norm_text(t):
